@@ -123,11 +123,17 @@ def mp_reference(alg, x):
     return E
 
 
-def impl_matrix(pp, torch, alg, x, dtype):
-    X = pp.LieTensor(torch.tensor(x, dtype=dtype), ltype=getattr(pp, alg + '_type')).Exp()
+def impl_matrix(pp, torch, alg, x, dtype, shape=()):
+    """Exp and matrix() of x, evaluated as the last item of a batch of the given lshape (all items equal x)"""
+    xt = torch.tensor(x, dtype=dtype)
+    shape = tuple(shape)
+    xb = xt.expand(shape + xt.shape).clone() if shape else xt
+    X = pp.LieTensor(xb, ltype=getattr(pp, alg + '_type')).Exp()
     M = X.matrix()
     n = M.shape[-1]
-    return [[float(M[i, j]) for j in range(n)] for i in range(n)], X.tensor().tolist()
+    M = M.reshape(-1, n, n)[-1]
+    raw = X.tensor().reshape(-1, X.tensor().shape[-1])[-1]
+    return [[float(M[i, j]) for j in range(n)] for i in range(n)], raw.tolist()
 
 
 def mp_raw_reference(alg, x):
@@ -149,14 +155,14 @@ def mp_raw_reference(alg, x):
     return t + q + ([mp.exp(X[6])] if alg == 'sim3' else [])
 
 
-def confirm(pp, torch, alg, dname, x):
+def confirm(pp, torch, alg, dname, x, shape=()):
     """is the implementation's Exp(x) outside the property's tolerance w.r.t. the true exponential?
     Same component tolerances as the enclosure check (99 % of them, so that a proved excess is always
     confirmed), measured against an independent 60-digit reference."""
     import mpmath as mp
     dtype = torch.float64 if dname == 'float64' else torch.float32
     eps = float(torch.finfo(dtype).eps)
-    M, raw = impl_matrix(pp, torch, alg, x, dtype)
+    M, raw = impl_matrix(pp, torch, alg, x, dtype, shape)
     if any(not math.isfinite(v) for v in raw):
         return 'non-finite output %s' % raw
     ref = mp_raw_reference(alg, x)
@@ -227,7 +233,7 @@ def run(ctx):
             x = gen_x(rng, alg, eps, kinds)
         xt = torch.tensor(x, dtype=dtype)
         x = [float(v) for v in xt.tolist()]          # the values the implementation really sees
-        shape = rng.choice([(), (1,), (3,), (2, 1, 3)])
+        shape = rng.choice([(), (1,), (3,), (2, 1, 3), (3, 2), (4, 3, 1), (2,), (5,)])
         xb = xt.expand(shape + xt.shape).clone() if shape else xt
         try:
             out = pp.LieTensor(xb, ltype=getattr(pp, alg + '_type')).Exp().tensor()
@@ -243,7 +249,7 @@ def run(ctx):
         br = branch_of(alg, dname, x, eps)
         ctx.case((alg, dname, tuple(x)), nontrivial=any(v != 0 for v in x), branch=br,
                  sample=dict(alg=alg, dtype=dname, x=x, impl=o) if i % 211 == 7 else None)
-        meta.append(dict(alg=alg, dtype=dname, x=x, impl=o, kinds=kinds))
+        meta.append(dict(alg=alg, dtype=dname, x=x, impl=o, kinds=kinds, shape=list(shape)))
         epsl = 'E64' if dname == 'float64' else 'E32'
         cases.append(dict(idx=i, expr='exp_l (NF:=@NF@) (TF:=TransIv) %s %d %s' % (epsl, ALGS.index(alg), ivlist(x)),
                           comps=[(j, o[j], t) for j, t in tolerances(alg, o, eps)]))
@@ -260,11 +266,11 @@ def run(ctx):
         comps = [c for j, c in r['bad'] if j == i]
         mm = dict(family='exp:' + m['alg'], case=dict(m, components=comps), detail='')
         ctx.mismatches.append(mm)
-        why = confirm(pp, torch, m['alg'], m['dtype'], m['x'])
+        why = confirm(pp, torch, m['alg'], m['dtype'], m['x'], m.get('shape', ()))
         if why:
             mm['explained'] = True
             eps = 2.0 ** -52 if m['dtype'] == 'float64' else 2.0 ** -23
-            ctx.violation(key_of(m['alg'], m['dtype'], m['x'], eps), 'Exp(%s) [%s %s]: %s' % (m['x'], m['alg'], m['dtype'], why), dict(alg=m['alg'], dtype=m['dtype'], x=m['x']))
+            ctx.violation(key_of(m['alg'], m['dtype'], m['x'], eps), 'Exp(%s) [%s %s, as the last item of a batch of lshape %s]: %s' % (m['x'], m['alg'], m['dtype'], tuple(m.get('shape', ())), why), dict(alg=m['alg'], dtype=m['dtype'], x=m['x'], shape=m.get('shape', [])))
     # known findings are replayed on their recorded witnesses even when this run's sample missed them
     for key, text in ctx.known.items():
         if key in ctx.known_hit:
@@ -303,4 +309,4 @@ FIXED_WITNESS = {
 def replay(ctx, c):
     pp = import_pypose()
     import torch
-    return confirm(pp, torch, c['alg'], c['dtype'], c['x'])
+    return confirm(pp, torch, c['alg'], c['dtype'], c['x'], c.get('shape', ()))
